@@ -9,7 +9,9 @@
                document extracted from the real Document (harness/c17.cpp)                              (tie C)
  4 search      direct oracle: Spec computed by the generator from what it wrote (independent of harness and model)
                vs the real verdict, on random models and on enumerated placements (a restricting conjunct at every position among
-               benign conjuncts of every form; every order of names x separators of the system line: directed_models);
+               benign conjuncts of every form; a floating-point value below an int / bool typed operator in every role; a clock
+               comparison inside the rate operand of a rate equation; clock arrays of several dimensions; every order of names x
+               separators of the system line: directed_models);
                metamorphic runs (declaration order, never-instantiated templates);
                every placement of the computed exception set is replayed on the real library with a directed witness
 """
@@ -61,6 +63,13 @@ def xml_of(m):
 REL = ["<", "<=", "==", "!=", ">=", ">"]
 CLOCKS = ["x", "y", "xs[0]", "xs[1]", "h"]
 FPS = ["1.5", "d", "K", "2.5", "d + 0.5", "2 * 1.5", "e"]
+# a floating-point value below an operator whose own type is int or bool: the operand of the comparison / the assigned value is
+# integer-typed, the floating-point value it is computed from sits one or more levels further down
+FPS_BELOW_INT = ["fint(d)", "i + fint(d)", "2 * fint(K)", "fint(2.5) + 1", "(d < 0.5 ? 1 : 2)", "fint(d + 0.5) - j"]
+ASSIGN_BELOW_INT = ["i = fint(d)", "b = d < 0.5", "i = 1 + fint(random(10))", "x = i + fint(2.5)", "j = fint(K) * 2", "i = (d < e ? 1 : 0)",
+                    "b = d == e", "y = fint(d)", "xs[1] = 2 * fint(K)", "b = !(d > 1.0)", "j = i + fint(1.5)"]
+# a clock-rate equation is no comparison, but its rate operand is an expression like any other and may contain one
+RATE_WITH_CMP = ["(%s ? 0 : 1)", "(%s ? 1 : 0)", "(%s && i == 0 ? 0 : 1)", "1 - (%s ? 0 : 1)", "(b ? 1 : (%s ? 0 : 1))"]
 BENIGN_GUARD = ["i == 0", "x < 3", "x >= 1", "b", "j != 1", "x - y < 2", "y <= N", "i < j", "x > 0", "!b", "true"]
 BENIGN_INV = ["x <= 5", "i == 0", "y < 7", "x' == 1", "y' == 0", "h' == 3", "x' == i", "0 == y'", "h' == 2.5", "x - y <= 3", "b",
               # quantified conjuncts (a quantifier extends to the end of the label, hence the parentheses): the type checker takes an
@@ -74,13 +83,22 @@ def flip(op):
 
 
 def cmp_atom(r, ops=REL):
-    c, f, op = r.choice(CLOCKS), r.choice(FPS), r.choice(ops)
+    c, f, op = r.choice(CLOCKS), r.choice(FPS + FPS_BELOW_INT), r.choice(ops)
     return ("%s %s %s" % (c, op, f)) if r.random() < 0.6 else ("%s %s %s" % (f, flip(op), c))
 
 
+def rate_cmp_atom(r):
+    """a rate equation (rate 0 / 1, nothing to object to) whose rate operand compares a clock with a floating-point value"""
+    c = r.choice(CLOCKS)
+    rate = r.choice(RATE_WITH_CMP) % cmp_atom(r, ["<", "<=", ">=", ">"])
+    return ("%s' == %s" % (c, rate)) if r.random() < 0.6 else ("%s == %s'" % (rate, c))
+
+
 def inv_cmp_atom(r):
+    if r.random() < 0.25:
+        return rate_cmp_atom(r)
     # invariants must be upper bounds to be accepted
-    c, f, op = r.choice(CLOCKS), r.choice(FPS), r.choice(["<", "<="])
+    c, f, op = r.choice(CLOCKS), r.choice(FPS + FPS_BELOW_INT), r.choice(["<", "<="])
     return ("%s %s %s" % (c, op, f)) if r.random() < 0.6 else ("%s %s %s" % (f, flip(op), c))
 
 
@@ -91,8 +109,38 @@ def rate_atom(r):
 
 
 def assign_atom(r):
+    if r.random() < 0.35:
+        return r.choice(ASSIGN_BELOW_INT)
     return r.choice(["x = 2.0", "d = 2.5", "d = d + 1.0", "x = d", "e = K * 2.0", "y = 0.5", "xs[1] = 1.5", "d = h * 1.0",
                      "x = h * 2.0", "e = h + d", "d = sqrt(2.0)", "x = K"])
+
+
+def clock_array_init(r, name):
+    """declaration of a clock array of two or three dimensions (written out, or through typedefs of the row / of the whole array) with one
+    floating-point value somewhere in the initialiser: the clocks of an array are clocks however many dimensions lie above them"""
+    dims = r.choice([[2, 2], [2, 2], [1, 2], [2, 3], [2, 2, 2], [2, 1, 2]])
+    total = 1
+    for n in dims:
+        total *= n
+    vals = [str(r.choice([0, 1, 2, 5])) for _ in range(total)]
+    vals[r.randrange(total)] = r.choice(["1.5", "0.5", "K", "2.5", "fint(2.5)"])
+
+    def nest(vs, ds):
+        if len(ds) == 1:
+            return "{" + ", ".join(vs) + "}"
+        step = len(vs) // ds[0]
+        return "{" + ", ".join(nest(vs[k * step:(k + 1) * step], ds[1:]) for k in range(ds[0])) + "}"
+    init = nest(vals, dims)
+    sub = lambda ds: "".join("[%d]" % n for n in ds)  # noqa: E731
+    form = r.choice(["direct", "row", "whole", "scalar"])
+    if form == "direct":
+        return "clock %s%s = %s;" % (name, sub(dims), init)
+    if form == "row":
+        return "typedef clock %s_row_t%s; %s_row_t %s%s = %s;" % (name, sub(dims[-1:]), name, name, sub(dims[:-1]), init)
+    if form == "whole":
+        return "typedef clock %s_row_t%s; typedef %s_row_t %s_all_t%s; %s_all_t %s = %s;" % (
+            name, sub(dims[-1:]), name, name, sub(dims[:-1]), name, name, init)
+    return "typedef clock %s_ck_t; %s_ck_t %s%s = %s;" % (name, name, name, sub(dims), init)
 
 
 def conj(r, atoms):
@@ -116,7 +164,7 @@ def gen_template(r, name, want):
         decl.append(r.choice(["int li;", "clock lc;", "clock lc = 2;", "bool lb;", "broadcast chan lbc;", "double ld = 0.5;"]))
     if "init" in want:
         decl.append(r.choice(["clock lc2 = 2.5;", "clock lc2 = K;", "clock lca[2] = {1.5, 2.5};", "clock lc2 = d + 1.0;",
-                              "clock lca[2] = {1, 0.5};"]))
+                              "clock lca[2] = {1, 0.5};"]) if r.random() < 0.6 else clock_array_init(r, "lcm"))
         placed.add("init")
     if "chan" in want:
         decl.append(r.choice(["chan lch;", "chan lcha[2];", "urgent chan luc;", "chan lchb[2][2];"]))
@@ -169,7 +217,8 @@ def gen_model(r):
     extra = []
     roll = r.random()
     if roll < 0.12:
-        extra.append(r.choice(["clock gc = 2.5;", "clock gca[2] = {0.5, 1};", "clock gc = K;", "clock gcb[2] = {1.5, 2.5};"]))
+        extra.append(r.choice(["clock gc = 2.5;", "clock gca[2] = {0.5, 1};", "clock gc = K;", "clock gcb[2] = {1.5, 2.5};"])
+                     if r.random() < 0.6 else clock_array_init(r, "gcm"))
         truth["sym"].add("init")
     if r.random() < 0.25:
         extra.append(r.choice(["broadcast chan ga;", "broadcast chan gb[2];", "urgent broadcast chan gu;", "typedef chan ct_t;",
@@ -300,9 +349,15 @@ def witnesses():
         W["cmp:invariant/nested/" + kn] = [(one(tmpl(inv="x %s 1.5" % op)), "sym"), (one(tmpl(inv="i == 0 && 1.5 %s x" % op)), "sym")]
         W["cmp:invariant/root/" + kn] = []   # an XML invariant label is always parsed as `1 && <label>`: no root position
     W["assign:plain"] = [(one(tmpl(upd="x = 2.0")), "sym"), (one(tmpl(upd="i = 1, d = 2.5, b = true")), "sym")]
+    W["assign:plain"] += [(one(tmpl(upd="i = fint(d)")), "sym"), (one(tmpl(upd="j = 0, b = d < 0.5")), "sym")]
+    W["cmp:guard/root/GE"].append((one(tmpl(guard="x >= i + fint(d)")), "sym"))
+    W["cmp:invariant/nested/LE"] += [(one(tmpl(inv="x <= 2 * fint(d)")), "sym"), (one(tmpl(inv="x' == (2.5 >= y ? 0 : 1)")), "sym")]
+    W["cmp:invariant/nested/GT"].append((one(tmpl(inv="(y > 2.5 ? 0 : 1) == x'")), "sym"))
     W["assign:hybrid-in-value"] = [(one(tmpl(upd="d = h * 1.0")), "sym"), (one(tmpl(upd="i = 1, x = h * 2.0")), "sym")]
     W["init:clock"] = [(one(gdecl=["clock c = 2.5;"]), "sym"), (one(tmpl(decl=["clock c = 2.5;"])), "sym")]
-    W["init:clock-array"] = [(one(gdecl=["clock ca[2] = {1.5, 2.5};"]), "sym"), (one(tmpl(decl=["clock ca[2] = {1, 0.5};"])), "sym")]
+    W["init:clock-array"] = [(one(gdecl=["clock ca[2] = {1.5, 2.5};"]), "sym"), (one(tmpl(decl=["clock ca[2] = {1, 0.5};"])), "sym"),
+                             (one(gdecl=["clock cm[2][2] = {{1, 1}, {1.5, 1}};"]), "sym"),
+                             (one(tmpl(decl=["typedef clock row_t[2]; row_t cm[2] = {{1, 0.5}, {1, 1}};"])), "sym")]
     W["rate:int/conjunct"] = [(one(tmpl(inv="x' == 2")), "sym"), (one(tmpl(inv="x <= 5 && 3 == x'")), "sym")]
     W["rate:int/non-conjunct"] = [(one(tmpl(inv="forall (k : int[0,1]) xs[k]' == 2")), "sym")]
     W["rate:double/conjunct"] = [(one(tmpl(inv="x' == 2.5")), "sym"), (one(tmpl(inv="x <= 5 && 0.5 == x'")), "sym")]
@@ -333,6 +388,37 @@ def directed_models(r, thorough):
         for nb in benign:
             for atoms in ([atom, nb], [nb, atom], [nb, atom, "y < 7"], ["y < 7", nb, atom], [nb, "y < 7", atom]):
                 out.append((one(tmpl(inv=conj(r, atoms) if thorough else " && ".join(atoms))), truth([feat])))
+    # * a floating-point value below an integer- or boolean-typed operator, in every role the statement names: the value of an update at
+    #   every position of the update list, the operand of a clock comparison in a guard / an invariant, either way round
+    for k, upd in enumerate(ASSIGN_BELOW_INT):
+        for ups in ([upd], ["j = 0", upd], [upd, "x = 0"], ["i++", upd, "b = true"]) if thorough else ([upd], [["j = 0", upd], [upd, "x = 0"]][k % 2]):
+            out.append((one(tmpl(upd=", ".join(ups))), truth(["assign"])))
+    for k, f in enumerate(FPS_BELOW_INT):
+        for c in CLOCKS if thorough else [CLOCKS[k % len(CLOCKS)], "x"]:
+            for op in ("<", "<=", ">=", ">", "=="):
+                if not thorough and op in ("<", ">"):
+                    continue
+                for g in ("%s %s %s" % (c, op, f), "i == 0 && %s %s %s" % (f, flip(op), c)):
+                    out.append((one(tmpl(guard=g)), truth(["cmp"])))
+            for op in ("<", "<="):
+                for g in ("%s %s %s" % (c, op, f), "%s %s %s && y < 7" % (f, flip(op), c)):
+                    out.append((one(tmpl(inv=g)), truth(["cmp"])))
+    # * a clock comparison with a floating-point value inside the rate operand of a rate equation, either way round, alone and among
+    #   other conjuncts: the equation itself sets a rate of 0 or 1 (or a hybrid clock's), the comparison below it still is one
+    for k, shape in enumerate(RATE_WITH_CMP):
+        for j, cmp_ in enumerate(["y > 2.5", "d <= y", "xs[1] < K", "y >= 2 * 1.5", "h > 1.5"] if thorough else ["y > 2.5", "d <= y", "xs[1] < K"]):
+            rate = shape % cmp_
+            for c in ("x", "xs[0]", "h") if thorough else (["x", "xs[0]", "h"][(k + j) % 3],):
+                for atoms in (["%s' == %s" % (c, rate)], ["%s == %s'" % (rate, c)], ["y <= 7", "%s == %s'" % (rate, c)],
+                              ["%s' == %s" % (c, rate), "i == 0"]):
+                    out.append((one(tmpl(inv=" && ".join(atoms))), truth(["cmp"])))
+    # * clock arrays of two and three dimensions (written out or through typedefs) with one floating-point value in the initialiser,
+    #   declared globally or in the instantiated template; and the same declarations with integers only, which restrict nothing
+    for k in range(60 if thorough else 16):
+        d = clock_array_init(r, "cm")
+        out.append((one(gdecl=[d]) if k % 2 else one(tmpl(decl=[d])), truth(["init"])))
+    for d in ("clock cm[2][2] = {{1, 2}, {0, 1}};", "typedef clock cm_row_t[2]; cm_row_t cm[2] = {{1, 1}, {5, 1}};"):
+        out += [(one(gdecl=[d]), truth()), (one(tmpl(decl=[d])), truth())]
     for np_ in (2, 3, 4):
         pool = r.sample(["A", "Ctl", "Gate", "M", "Train", "Z", "a", "m0", "z9", "_p"], np_)
         decl = " ".join("%s = P();" % nm for nm in sorted(pool, key=lambda _: r.random()))
@@ -496,7 +582,8 @@ def run(ctx):
     unexplained = 0
     for k, name in viol:
         lv = lean[k]
-        und = lv["und"] if lv else []
+        # a placement explains the verdict it restricts: channels stochastic analysis, everything else symbolic analysis
+        und = [key for key in (lv["und"] if lv else []) if key.startswith("chan") == (name == "stochastic") and name != "concrete"]
         x = res[k]
         if und:
             for key in und:
@@ -558,6 +645,8 @@ def run(ctx):
     ctx.assumptions += [
         "the abstract document (kinds, is(DOUBLE)/is(HYBRID)/is_clock() flags, frames) is extracted from the real Document by harness/c17.cpp; "
         "the Lean Spec is cross-checked against the Spec the generator knows by construction",
+        "'a floating-point value' is read as an operand that is one or is computed from one (some sub-expression of it has floating-point "
+        "type): i = fint(d), x >= i + fint(d), x' == (y > 2.5 ? 0 : 1) count; the generator's Spec and the Lean Spec (hasFp) agree on it",
         "functions called from updates are not inspected for floating-point assignments (neither by the checker nor by the Spec)",
         "a rate is 'other than 0 or 1' only when it is a literal; rates given by expressions (x' == 1+1, x' == -1, x' == v) are not judged",
         "models are XML (parse_XML_buffer); an invariant label is always parsed as `1 && label`, so the root placement of an invariant is not reachable",
